@@ -109,3 +109,67 @@ class AutoScale(Unit):
 
     def key(self, case, r):
         return "autoscale:" + (self.oracle(case, r) or "mismatch").split(":")[0]
+
+
+class CreateScaling(Unit):
+    """scale.py create_scaling through the Solver constructor: which data each ScalingType feeds to the three
+    constructors above (the scaling point itself for Nominal, not a clamped or shifted copy)"""
+    name = "create_scaling"
+    header = "From Verif Require Import CorrScale."
+    check_fn = "check_create_scaling"
+    tag_fn = "tag_create_scaling"
+    shard = 100
+
+    def gen(self, g, tier):
+        r = g.rng
+        cases = []
+        for k in range(600 if tier == "thorough" else 120):
+            spec = g.spec(nmax=3, mmax=2)
+            n, m = spec.n, spec.m
+            k0 = r.choice([0, 0, -3, -6, 3])
+            xs = [r.choice([0.0, 1.0, -1.0, 3.0, 5.0, -7.0]) * 2.0 ** (k0 + r.randint(-2, 2)) for _ in range(n)]
+            ys = [r.choice([0.0, 1.0, -1.0, 2.0]) for _ in range(m)]
+            cases.append({"kind": k % 3, "spec": spec.to_json(), "xs": xs, "ys": ys, "fmt": r.choice(["coo", "csr", "csc"])})
+        return cases
+
+    def impl(self, case):
+        from pygradflow.params import Params, ScalingType
+        from pygradflow.solver import Solver
+        from ..qp import QuadProblem, Spec
+        spec = Spec.from_json(case["spec"])
+        prob = QuadProblem(spec, fmt=case["fmt"])
+        st = [ScalingType.Nominal, ScalingType.GradJac, ScalingType.KKT][case["kind"]]
+        params = Params(scaling_type=st, scaling_primal=np.array(case["xs"], dtype=float), scaling_dual=np.array(case["ys"], dtype=float))
+        try:
+            s = Solver(prob, params).transform.scaling
+        except Exception as e:
+            if "Equilibration failed" in str(e):
+                return {"res": None}
+            raise
+        return {"res": [[int(v) for v in s.var_weights], [int(v) for v in s.cons_weights], int(s.obj_weight)]}
+
+    def term(self, case, r):
+        from ..qp import Spec
+        res = r.get("res", [[99], [], 0]) if "exc" not in r else [[99], [], 0]
+        e = "None" if res is None else "(Some (%s, %s, %s))" % (clist([cz(v) for v in res[0]]), clist([cz(v) for v in res[1]]), cz(res[2]))
+        return "(mk_cscase %s %s %s %s %s)" % (cn(case["kind"]), Spec.from_json(case["spec"]).to_coq(), cvec(case["xs"]), cvec(case["ys"]), e)
+
+    def tag_name(self, t):
+        return AutoScale.tag_name(self, t)
+
+    def nontrivial(self, case, r, t):
+        return t is not None and t >= 100
+
+    def oracle(self, case, r):
+        """C20's Nominal clause on the scaling the solver built: every non-zero nominal variable value has scaled magnitude in [1,2)"""
+        if "exc" in r:
+            return "create_scaling raised %s: %s" % (r["exc"], r.get("msg"))
+        if r["res"] is None or case["kind"] != 0:
+            return None
+        for v, k in zip(case["xs"], r["res"][0]):
+            if v != 0.0 and not (1.0 <= abs(np.ldexp(v, int(k))) < 2.0):
+                return "nominal: variable value %r scaled to %r, not in [1,2)" % (v, abs(np.ldexp(v, int(k))))
+        return None
+
+    def key(self, case, r):
+        return "create_scaling:" + (self.oracle(case, r) or "mismatch").split(":")[0]
